@@ -30,7 +30,7 @@ PROTO_TRUSTED = ["hashicorp/raft", "NATS delivery semantics as assumed", "Go sch
 PROPS = {
     "C01": dict(
         # Props.GoSegments: the model's segment lookups = the translated bodies of findSegment / findSegmentContains / findSegmentByBaseOffset
-        lean_modules=["Liftbridge.Props.C01", "Liftbridge.Props.Codec", "Liftbridge.Props.GoSegments", "Liftbridge.Props.GoAppend", "Liftbridge.Props.GoSplit", "Liftbridge.Props.GoTruncate"],
+        lean_modules=["Liftbridge.Props.C01", "Liftbridge.Props.Codec", "Liftbridge.Props.GoSegments", "Liftbridge.Props.GoAppend", "Liftbridge.Props.GoSplit", "Liftbridge.Props.GoTruncate", "Liftbridge.Props.GoAppendTop"],
         gen_sources=LOG_SOURCES,
         runs=[dict(go_pkg="./server/commitlog", test="TestVerifC01"), dict(go_pkg="./server/commitlog", test="TestVerifC01Codec")],
         level="proof",
@@ -82,7 +82,7 @@ PROPS = {
     ),
     "C16": dict(
         # Props.GoMessageSet: the model's batch check + stamp (offsets, concurrency-control decision) = the translated body of newMessageSetFromProto
-        lean_modules=["Liftbridge.Props.C16", "Liftbridge.Props.C16Seq", "Liftbridge.Props.GoMessageSet", "Liftbridge.Props.GoAck"],
+        lean_modules=["Liftbridge.Props.C16", "Liftbridge.Props.C16Seq", "Liftbridge.Props.GoMessageSet", "Liftbridge.Props.GoAck", "Liftbridge.Props.GoAppendTop"],
         gen_sources=LOG_SOURCES + ["server/partition.go:partition.messageProcessingLoop", "server/api.go:apiServer.ensurePublishPreconditions"],
         runs=[dict(go_pkg="./server/commitlog", test="TestVerifC16"), dict(go_pkg="./server", test="TestVerifC16Server"), dict(go_pkg="./server", test="TestVerifC16Restore"), dict(go_pkg="./server", test="TestVerifC16Subjects")],
         level="proof",
